@@ -108,3 +108,14 @@ func ReadLines(path string) ([]json.RawMessage, error) {
 	}
 	return out, sc.Err()
 }
+
+// ShmBase is the directory under which drivers create their tmpfs scratch directories: a per-run
+// directory that the orchestrator removes after the driver has finished (VERIF_SHM_BASE), or /dev/shm.
+func ShmBase() string {
+	if b := os.Getenv("VERIF_SHM_BASE"); b != "" {
+		if st, err := os.Stat(b); err == nil && st.IsDir() {
+			return b
+		}
+	}
+	return "/dev/shm"
+}
